@@ -159,7 +159,9 @@ def search(rep: C.Report, tier: str, broken):
         except Exception as ex:  # noqa: BLE001
             b_ = f"raised {type(ex).__name__}: {str(ex)[:80]}"
         return a_, b_
-    sets = [dict(psi=0.79, cs2=0.324, cb2=0.269, Tn=1.0), dict(psi=0.9, cs2=0.30, cb2=0.25, Tn=50.0)]
+    # (the third set: sound speeds far apart, cb = 0.465 < cs = 0.570, where hybrids with cb < vw < cs^2/cb have an upper bound on v+ ABOVE v-)
+    sets = [dict(psi=0.79, cs2=0.324, cb2=0.269, Tn=1.0), dict(psi=0.9, cs2=0.30, cb2=0.25, Tn=50.0),
+            dict(psi=0.629764263770335, cs2=0.3251420093311493, cb2=0.21596482977074558, Tn=0.6800773171502196)]
     if tier == "thorough":
         sets += [dict(psi=r.uniform(0.55, 0.95), cs2=r.uniform(0.25, 1 / 3), cb2=r.uniform(0.2, 0.25), Tn=10 ** r.uniform(-2, 2)) for _ in range(5)]
     for base in sets:
